@@ -120,7 +120,7 @@ func OptionsRoundTrip(p *core.Prog, r *core.Report) {
 		if g == nil || !p.InSubject(g) || len(c.Call.Args) != 1 {
 			return
 		}
-		if nt, ok := c.Type().(*types.Named); !ok || nt.Obj().Name() != "Option" {
+		if nt, ok := c.Type().(*types.Named); !ok || core.KnownTypeName(nt) != "Option" {
 			return
 		}
 		n++
